@@ -779,13 +779,13 @@ def _testfile(ctx, known, counts):
 
 
 def _simulate(ctx, known, counts):
-    num = 3000
+    num = 400           # per TLC worker
     prefix = ctx.scratch / "sim" / "b"
     prefix.parent.mkdir(exist_ok=True)
     cfg = ('SPECIFICATION SpecBuild\nCONSTANTS Deviations = {}\n Profile = "thorough"\n Part = {}\n'
            " MaxStack = 4\n MaxLen = 3\nINVARIANT Inv_BuildClauses\n")
     r = run_tlc("OmmlGen", cfg, scratch=ctx.scratch, simulate=f"file={prefix},num={num}", depth=22, seed=ctx.seed,
-                workers=8, timeout=1500, expect_fail=True)
+                workers=6, timeout=1500, expect_fail=True)
     ctx.ev.tlc("OmmlGen!SpecBuild -simulate: reference design satisfies the clauses on random deeper trees", r)
     if r.violated:
         ctx.v.violation(what=f"OmmlGen!SpecBuild: {r.violated} violated by the reference design", observed=r.trace[-1:])
